@@ -12,6 +12,7 @@ import Rare.Proofs.C07GroupKey
 import Rare.Proofs.C07NumF64Err
 import Rare.Proofs.C07NumF64Acc
 import Rare.Proofs.C07NumF64Var
+import Rare.Proofs.C07ModeNaN
 import Rare.Gen.C07
 /-!
 C07 – Aggregators compute the exact fold of their sample history.
@@ -934,8 +935,8 @@ theorem num_f64_order_stats (rev : Bool) (l s : List F64) (hne : l ≠ []) (hs :
 /-- `Mode()` in floats, for samples without NaN.  The scan compares neighbours with the IEEE `!=`, so `-0` and `+0`
 are one value: the result `m` is not NaN, equals (`==`) a sample, no value occurs more often than `m` (multiplicities
 counted with `==`), and among the values of maximal multiplicity it is the smallest (the largest when `Reverse` is
-set) – for every sorted arrangement `s`.  NaN caveat (not covered here, exercised by the correspondence): every NaN
-starts a run of length one, so NaN can be returned only when no number occurs twice. -/
+set) – for every sorted arrangement `s`.  With NaN samples: `num_f64_mode_any` below (every NaN
+starts a run of length one, so NaN can be returned only when no number occurs twice). -/
 theorem num_f64_mode (rev : Bool) (l s : List F64) (hne : l ≠ []) (hs : IsSortedF rev s l)
     (hn : ∀ x ∈ l, x.isNaN = false) :
     let m := modeF s
@@ -944,6 +945,28 @@ theorem num_f64_mode (rev : Bool) (l s : List F64) (hne : l ≠ []) (hs : IsSort
     (∀ y ∈ l, l.countP (fun x => F64.eq y x) = l.countP (fun x => F64.eq m x) → F64.eq y m = false →
       (if rev then F64.lt y m else F64.lt m y) = true) :=
   modeF_scan rev s l hs hne hn
+
+/-- `Mode()` FOR ALL SAMPLES, NaN INCLUDED (drops the hypothesis of `num_f64_mode`).  `sort.Float64s` puts the NaN samples
+first (last with `Reverse`), and the scan's `val != currValue` is true for every NaN: each NaN is a run of length one.
+For every sorted arrangement `s` of any non-empty sample list `l`:
+
+* ascending: `Mode()` is NaN exactly when some sample is NaN and NO number occurs twice (`==`-multiplicities ≤ 1) – a
+  number replaces the first NaN only with a run of length 2;
+* `Reverse`: `Mode()` is NaN exactly when ALL samples are NaN (the numbers are scanned first; a NaN run never exceeds
+  the count already observed);
+* a NaN result is one of the samples; a result that is a number satisfies the three clauses of `num_f64_mode`
+  (it `==` a sample, has maximal multiplicity, and is the first such value in the sort order). -/
+theorem num_f64_mode_any (rev : Bool) (l s : List F64) (hne : l ≠ []) (hs : IsSortedF rev s l) :
+    let m := modeF s
+    (m.isNaN = true ↔ (if rev then ∀ x ∈ l, x.isNaN = true
+        else (∃ x ∈ l, x.isNaN = true) ∧ ∀ y, l.countP (fun x => F64.eq y x) ≤ 1)) ∧
+    (m.isNaN = true → m ∈ l) ∧
+    (m.isNaN = false →
+      (∃ x ∈ l, F64.eq m x = true) ∧
+      (∀ y, l.countP (fun x => F64.eq y x) ≤ l.countP (fun x => F64.eq m x)) ∧
+      (∀ y ∈ l, l.countP (fun x => F64.eq y x) = l.countP (fun x => F64.eq m x) → F64.eq y m = false →
+        (if rev then F64.lt y m else F64.lt m y) = true)) :=
+  modeF_general rev s l hs hne
 
 /-- A SUFFICIENT EXACTNESS CONDITION.  If the samples are finite and every intermediate value of the exact
 (rational) Welford recurrence on their values – `x − mean`, `(x − mean)/k`, the new mean, `x − mean'`, the product
@@ -1242,6 +1265,15 @@ example : 1 ≤ (runFv true exInts).samples ∧ (runFv true exInts).samples + 1 
     (runFv true exInts).mean.isFinite = true ∧ (F64.ofRat (1/10)).isFinite = true := by decide +kernel
 example : (F64.ofRatS false (1/10)).isFinite = true ∧ (F64.ofRatS false (1/10)).toRat ≠ 1/10 := by decide +kernel
 def exMixed : List F64 := [F64.ofInt 1, F64.zero true, F64.nan, F64.zero false]
+/-- `[1, -0, NaN, +0]`: the zeros are one value with multiplicity 2, so the mode is a zero – ascending and reversed;
+`[1, NaN, 2]`: ascending the mode is the NaN (no number twice), reversed it is 2. -/
+example : (modeF [F64.nan, F64.zero true, F64.zero false, F64.ofInt 1]).isNaN = false ∧
+    F64.eq (modeF [F64.nan, F64.zero true, F64.zero false, F64.ofInt 1]) (F64.zero false) = true ∧
+    (modeF [F64.nan, F64.ofInt 1, F64.ofInt 2]).isNaN = true ∧
+    modeF [F64.ofInt 2, F64.ofInt 1, F64.nan] = F64.ofInt 2 := by decide +kernel
+example : IsSortedF false [F64.nan, F64.ofInt 1, F64.ofInt 2] [F64.ofInt 1, F64.nan, F64.ofInt 2] ∧
+    IsSortedF true [F64.ofInt 2, F64.ofInt 1, F64.nan] [F64.ofInt 1, F64.nan, F64.ofInt 2] :=
+  ⟨⟨by decide +kernel, by decide +kernel⟩, ⟨by decide +kernel, by decide +kernel⟩⟩
 example : IsSortedF false [F64.nan, F64.zero true, F64.zero false, F64.ofInt 1] exMixed ∧
     IsSortedF false [F64.nan, F64.zero false, F64.zero true, F64.ofInt 1] exMixed := by
   exact ⟨⟨by decide +kernel, by decide +kernel⟩, ⟨by decide +kernel, by decide +kernel⟩⟩
